@@ -231,7 +231,7 @@ Proof.
   destruct (check_count_inv _ _ _ _ _ Hn Hc) as (Hu & H1 & Hcb). unfold min_lock_size in Hcb.
   pose proof (div6_le_max_slice_len b n1 Hgo) as Hmax.
   assert (Hm : max_slice_len < 2 ^ 63) by (by vm_compute).
-  destruct (check_locks_loop_lockstep _ _ _ _ _ ltac:(lia) HL Hl) as (ls & Hls & Hlen & H2).
+  destruct (check_locks_loop_lockstep b (fuel_for b) c n1 n2 ltac:(lia) HL Hl) as (ls & Hls & Hlen & H2).
   apply check_terminator_inv in Ht. subst n3.
   unfold unmarshal_slice. rewrite Hu.
   replace (2 ^ 63 <=? c) with false by lia.
@@ -259,7 +259,7 @@ Proof.
     destruct (check_terminator b n3) as [n4| | |] eqn:E4; cbn [rbind]; try done.
     destruct (slice_lockstep b n1 n2 lc n3 n4 ltac:(lia) Hgo E2 E3 E4) as (ls & Hsl & H4).
     pose proof (check_terminator_safe b n3) as Hts.
-    destruct (check_count_inv _ _ _ _ _ ltac:(lia) E2) as (_ & H2 & _).
+    destruct (check_count_inv b n1 min_lock_size n2 lc ltac:(lia) E2) as (_ & H2 & _).
     pose proof (check_locks_loop_safe b (fuel_for b) lc n2 ltac:(lia) (fuel_for_spec b n2)) as H3.
     rewrite E3 in H3. cbn in H3.
     specialize (Hts ltac:(lia)). rewrite E4 in Hts. cbn in Hts.
@@ -277,11 +277,11 @@ Proof.
   destruct (check_entries_loop (fuel_for b) b c n1) as [n2| | |] eqn:E2; cbn [rbind]; try done.
   destruct (check_terminator b n2) as [n3| | |] eqn:E3; cbn [rbind]; try done.
   unfold verify_marshal at 1. destruct (n3 =? blen b) eqn:E4; [|done]. intros _.
-  destruct (check_count_inv _ _ _ _ _ ltac:(lia) E1) as (Hu & H1 & Hcb).
+  destruct (check_count_inv b 0 min_entry_size n1 c ltac:(lia) E1) as (Hu & H1 & Hcb).
   unfold min_entry_size in Hcb.
   assert (Hc63 : c < 2 ^ 63).
-  { assert ((blen b - n1) / 6 <= blen b) by (etrans; [apply N.div_le_mono; lia|]; apply N.div_le_upper_bound; lia).
-    lia. }
+  { pose proof (div6_le_max_slice_len b n1 Hgo).
+    assert (max_slice_len < 2 ^ 63) by (by vm_compute). lia. }
   destruct (check_entries_loop_lockstep b (fuel_for b) c n1 n2 ∅ ltac:(lia) Hgo E2)
     as (m & a & Hloop & Hb & Hb').
   apply check_terminator_inv in E3. subst n3.
